@@ -3,7 +3,10 @@
 ID=$1; P=$2; TIER=${3:-quick}
 cd /verif
 if ! git -C /repo apply "$P"; then echo "$ID $(basename $P) apply-failed"; exit 0; fi
+cp evidence/$ID.json /tmp/.evidence-$ID.keep 2>/dev/null
 OUT=$(./check $ID $TIER 2>&1); CODE=$?
 git -C /repo checkout -- . 
+# the evidence written under a seeded change must never be committed: put the previous file back
+[ -f /tmp/.evidence-$ID.keep ] && mv /tmp/.evidence-$ID.keep evidence/$ID.json
 SIG=$(echo "$OUT" | grep -E "^violation:" | head -2 | cut -c1-260 | tr '\n' ' ')
 echo "$ID $(basename $P) exit=$CODE $SIG"
